@@ -336,6 +336,8 @@ func runHostileConns(c HostileConnCase) (*hcStats, error) {
 	defer stall.close()
 	portBase := c11PortBase + 8*int(pbtShardPort())
 
+	getSent := map[string]time.Time{} // cookie -> when a GET channel carrying it was last sent
+	pairings, probes := 0, 0
 	conns := map[int]*hconn{}
 	dial := func(i int) *hconn {
 		if h := conns[i]; h != nil {
@@ -382,6 +384,7 @@ func runHostileConns(c HostileConnCase) (*hcStats, error) {
 
 	// probe: a well-behaved library client must be served while and after the hostile peers act
 	runProbe := func(proto gortsplib.Protocol, rtpPort int, when string) error {
+		probes++
 		cl := NewClient(w.Scheme, w.Host, protoPtr(proto))
 		got := make(chan struct{}, 1)
 		var perr error
@@ -484,9 +487,13 @@ func runHostileConns(c HostileConnCase) (*hcStats, error) {
 			h.send(b)
 		case "tunnel-get":
 			h.tunnelGet = true
+			getSent[s.Cookie] = time.Now()
 			h.send([]byte("GET /stream HTTP/1.1\r\nAccept: application/x-rtsp-tunnelled\r\nX-Sessioncookie: " + s.Cookie + "\r\n\r\n"))
 			time.Sleep(20 * time.Millisecond)
 		case "tunnel-post":
+			if t, ok := getSent[s.Cookie]; ok && time.Since(t) < 5500*time.Millisecond {
+				pairings++ // this POST channel may be paired with a GET channel the server still holds: one more (tunnelled) connection
+			}
 			h.send([]byte("POST /stream HTTP/1.1\r\nContent-Type: application/x-rtsp-tunnelled\r\nX-Sessioncookie: " + s.Cookie + "\r\nContent-Length: 32767\r\n\r\n"))
 			if len(s.Raw) > 0 {
 				h.send([]byte(base64.StdEncoding.EncodeToString(s.Raw)))
@@ -593,6 +600,18 @@ func runHostileConns(c HostileConnCase) (*hcStats, error) {
 	}
 	if unbalanced != "" {
 		return st, fmt.Errorf("7 s after the hostile connections ended: %s\nlibrary goroutines:\n%s", unbalanced, trimStacks(baseline.newLibGoroutines(0), 8))
+	}
+	// the server opens one connection per peer connection, plus one per HTTP tunnel it pairs; a POST channel can only be
+	// paired with a GET channel it still holds (for 5 s): more connections than that means a registration outlived its channel
+	opens := 0
+	for _, e := range w.H.Events() {
+		if e.Kind == "connopen" {
+			opens++
+		}
+	}
+	if opens > st.Conns+probes+pairings {
+		return st, fmt.Errorf("the server opened %d connections for %d hostile and %d well-behaved peer connections and at most %d legitimate tunnel pairings: a tunnel was paired with a channel that no longer existed",
+			opens, st.Conns, probes, pairings)
 	}
 	if c.UDP {
 		if err := runProbe(gortsplib.ProtocolUDP, portBase, "after the hostile sessions ended, on the UDP ports they had asked for"); err != nil {
